@@ -21,6 +21,8 @@ for fam in mod.families(tier):
            '--drop-unused-functions', '--no-malloc-may-fail'] + fam.flags + list(o.kw.get('flags', ()))
     for u in list(fam.unwindset) + list(o.kw.get('unwindset', ())):
         cmd += ['--unwindset', u]
+    if 'ptr_models.c' in fam.stubs:
+        cmd += ['--unwindset', 'verif_copy.0:22', '--unwindset', 'verif_copy.1:22', '--unwindset', 'verif_copy.2:162', '--unwindset', 'verif_copy.3:162']
     spec = list(fam.loopspec) + list(o.kw.get('loopspec', ()))
     if spec:
         cmd += run.loopspec_args(fam, spec)
